@@ -544,7 +544,7 @@ func TestC35Sequential(t *testing.T) {
 		t.Skip()
 	}
 
-	kit.SetChecks(300, 2000)
+	kit.SetChecks(400, 2000)
 	rapid.Check(t, func(rt *rapid.T) { c := genC35Sequential(rt); run(rt, c) })
 }
 
@@ -942,6 +942,6 @@ func TestC35Unrepresentable(t *testing.T) {
 		t.Skip()
 	}
 
-	kit.SetChecks(100, 400)
+	kit.SetChecks(80, 400)
 	rapid.Check(t, func(rt *rapid.T) { sc := genC35Special(rt); run(rt, sc) })
 }
